@@ -40,7 +40,7 @@ for pid in sorted(props.PROPS):
         "evidence_file": "/verif/evidence/%s.json" % pid,
         "replay_cmd_template": "./check --replay {path}",
         "engine": "verus" if c.get("units") else "kani",
-        "level_claimed": {"category": c.get("level", "proof"), "text": c["level_text"], "design_ref": c.get("design_ref", "DESIGN.md §5." + pid)},
+        "level_claimed": {"category": c.get("level", "proof"), "text": c["level_text"], "design_ref": c.get("design_ref", "DESIGN.md §0 (summary row) and §4 (" + pid + ")")},
         "level_note": c["level_note"],
         "technique": c["technique"],
     })
